@@ -24,10 +24,10 @@ ID = 'C09'
 HASHSEED_IS_VIOLATION = False
 
 TIERS = {
-    'quick': {'runs': 24000, 'replica_runs': 400, 'hash_seeds': [1, 4242], 'timeout_s': 420,
+    'quick': {'runs': 24000, 'replica_runs': 400, 'hash_seeds': [1, 4242], 'timeout_s': 1200,
               'shrink_s': 40},
     'thorough': {'runs': 120000, 'replica_runs': 1600, 'hash_seeds': [1, 7, 99, 4242, 31337, 2**31],
-                 'timeout_s': 3000, 'shrink_s': 120},
+                 'timeout_s': 9000, 'shrink_s': 120},
 }
 
 RULE = ('Each run plans an explicit trace: 0-4 generated well-formed graphs with metadata, a text '
